@@ -973,8 +973,10 @@ fn mixed_table() -> Table {
 
 fn did_pool() -> Vec<String> {
   let mut pool: Vec<String> = Vec::new();
-  for m in ["m1", "m2", "m3", "m4", "zz"] {
-    for id in ["a", "b", "c:d"] {
+  // `m`, `m10`, `1m` have no handler in any table: prefixes, extensions and rearrangements of registered names; ids
+  // that contain a registered method name as a segment
+  for m in ["m1", "m2", "m3", "m4", "zz", "m", "m10", "1m"] {
+    for id in ["a", "b", "c:d", "m1:a", "m2"] {
       pool.push(format!("did:{m}:{id}"));
     }
   }
